@@ -3400,25 +3400,59 @@ def fold_intenum_members(repo: Repo, ci: Optional[ClassInfo], sf: Optional[Sourc
         return out
     changed = False
 
+    def member_value(e):
+        if isinstance(e, ast.Attribute) and e.attr == "value":
+            e = e.value                     # Member.value
+        if isinstance(e, ast.Call) and isinstance(e.func, ast.Name) and e.func.id == "int" and len(e.args) == 1 and not e.keywords:
+            e = e.args[0]                   # int(Member)
+        if isinstance(e, ast.Attribute) and isinstance(e.ctx, ast.Load) and isinstance(e.value, (ast.Name, ast.Attribute)) \
+                and norm(e.value).split(".")[-1][:1].isupper():
+            m = members(e.value)
+            if m and e.attr in m:
+                return ast.Constant(value=m[e.attr])
+        return None
+
+    def fold_here(e):
+        nonlocal changed
+        v = member_value(e)
+        if v is not None:
+            changed = True
+            return ast.copy_location(v, e)
+        return e
+
     class T(ast.NodeTransformer):
-        def visit_Attribute(self, node):
-            nonlocal changed
+        # only where an integer is what is meant: operands of comparisons and arithmetic, struct.pack arguments, enumerate / range
+        # arguments, subscripts.  A member stored, returned or passed on stays the member (rules about enumerated values read it).
+        def visit_Compare(self, node):
             node = self.generic_visit(node)
-            if isinstance(node.ctx, ast.Load) and isinstance(node.value, (ast.Name, ast.Attribute)) and norm(node.value).split(".")[-1][:1].isupper():
-                m = members(node.value)
-                if m and node.attr in m:
-                    changed = True
-                    return ast.copy_location(ast.Constant(value=m[node.attr]), node)
-            if isinstance(node.ctx, ast.Load) and node.attr == "value" and isinstance(node.value, ast.Constant) and isinstance(node.value.value, int) \
-                    and getattr(node.value, "_from_enum", False):
-                return node.value
+            node.left = fold_here(node.left)
+            node.comparators = [fold_here(c) for c in node.comparators]
+            return node
+
+        def visit_BinOp(self, node):
+            node = self.generic_visit(node)
+            node.left, node.right = fold_here(node.left), fold_here(node.right)
+            return node
+
+        def visit_Subscript(self, node):
+            node = self.generic_visit(node)
+            if not isinstance(node.slice, ast.Slice):
+                node.slice = fold_here(node.slice)
             return node
 
         def visit_Call(self, node):
             node = self.generic_visit(node)
-            if isinstance(node.func, ast.Name) and node.func.id == "int" and len(node.args) == 1 and not node.keywords and isinstance(node.args[0], ast.Constant) \
-                    and isinstance(node.args[0].value, int) and not isinstance(node.args[0].value, bool):
-                return node.args[0]
+            f = norm(node.func).split(".")[-1]
+            if f in ("pack", "pack_into", "enumerate", "range", "to_bytes"):
+                node.args = [fold_here(a) for a in node.args]
+            if isinstance(node.func, ast.Name) and node.func.id == "int" and len(node.args) == 1 and not node.keywords:
+                return fold_here(node)          # int(Member) is the integer wherever it stands
+            return node
+
+        def visit_Attribute(self, node):
+            node = self.generic_visit(node)
+            if node.attr == "value" and isinstance(node.ctx, ast.Load):
+                return fold_here(node)          # Member.value likewise
             return node
     new = T().visit(copy.deepcopy(fn))
     if not changed:
